@@ -108,6 +108,9 @@ pub fn run_extra(kind: &str, l: &[Sx]) -> String {
         "serscript" => serscript_case(l),
         "respell" => respell_case(l),
         "rtext" => rtext_case(l),
+        "script" => script_case(l),
+        "foldcall" => foldcall_case(l),
+        "hashclass" => hashclass_case(l),
         "poscoh" => crate::oracles::poscoh(l),
         "mathref" => crate::oracles::mathref(l),
         "daterange" => crate::oracles::daterange(l),
@@ -528,4 +531,70 @@ fn respell_case(l: &[Sx]) -> String {
             format!("R=compiled ## respell={}", if ok { "holds" } else { "FAILS" })
         }
     }
+}
+
+// C09: a builtin called from a script (compile + validate + optimize + execute against the standard library)
+fn script_case(l: &[Sx]) -> String {
+    let text = cps_to_string(&l[2..]);
+    let mut env = StaticEnvironment::default();
+    slac::stdlib::extend_environment(&mut env);
+    match compile(&text) {
+        Err(e) => format!("R=nocompile:{}", show_cerr(&e)),
+        Ok(e) => {
+            let r = execute(&env, &e);
+            let _ = check_variables_and_functions(&env, &e);
+            let mut o = e.clone();
+            let st = optimize(&env, &mut o);
+            let r2 = execute(&env, &o);
+            // folding a pure call at optimize time is indistinguishable from calling it at run time
+            let uses_impure = text.starts_with("random") || text.starts_with("choice");
+            // (a value before must be the same value after; an error before may legitimately differ - the if_then/3 rewrite of C05)
+            let fold = if st.is_ok() && !uses_impure && r.is_ok() { if show_res(&r) == show_res(&r2) { "holds" } else { "FAILS" } } else { "n/a" };
+            format!("R={} ## fold={}", if uses_impure { "impure".to_string() } else { show_res(&r) }, fold)
+        }
+    }
+}
+// C14: optimize-time folding of a pure builtin equals the run-time call
+fn foldcall_case(l: &[Sx]) -> String {
+    let name = string(&l[2]);
+    let args: Vec<Value> = l[3..].iter().map(value).collect();
+    let mut env = StaticEnvironment::default();
+    slac::stdlib::extend_environment(&mut env);
+    let call = Expression::Call { name: name.clone(), params: args.iter().map(|v| Expression::Literal { value: v.clone() }).collect() };
+    let direct = crate::oracles::call(&name, &args);
+    let mut o = call.clone();
+    let st = optimize(&env, &mut o);
+    let folded = match (&st, &o) {
+        (Ok(()), Expression::Literal { value }) => Some(value.clone()),
+        _ => None,
+    };
+    let (_, pure) = crate::oracles::lookup(&name);
+    let verdict = if name == "if_then" && args.len() == 3 { "n/a" } else { match (&direct, &folded) {
+        (Ok(d), Some(f)) => if show_value(d) == show_value(f) { "holds" } else { "FAILS" },
+        (Err(_), None) => "holds",
+        (Ok(_), None) => if pure && matches!(env.function_exists(&name, args.len()), slac::environment::FunctionResult::Exists { .. }) { "FAILS" } else { "n/a" },
+        (Err(_), Some(_)) => "FAILS",
+    } };
+    format!("R={} ## foldeq={}", match &direct { Ok(v) => format!("ok:{}", show_value(v)), Err(e) => format!("err:{}", show_nerr(e)) }, verdict)
+}
+// C14: Hash for Value under a fixed-key hasher: values that are == must hash alike
+fn hashclass_case(l: &[Sx]) -> String {
+    use std::hash::{Hash, Hasher};
+    let vals: Vec<Value> = l[2..].iter().map(value).collect();
+    let h = |v: &Value| {
+        let mut s = std::collections::hash_map::DefaultHasher::new();
+        v.hash(&mut s);
+        s.finish()
+    };
+    let mut ok = true;
+    for a in &vals {
+        for b in &vals {
+            if a == b && h(a) != h(b) {
+                ok = false;
+            }
+        }
+    }
+    let classes: Vec<String> = vals.iter().map(|v| (if matches!(v, Value::Array(_)) { "A" } else { "S" }).to_string()).collect();
+    let distinct: std::collections::HashSet<u64> = vals.iter().map(h).collect();
+    format!("R=classes:{} ## hasheq={} hashes={}", classes.join(""), if ok { "holds" } else { "FAILS" }, distinct.len())
 }
